@@ -110,6 +110,12 @@ def check_pair(a: int, b: int) -> None:
 
 
 def run_case(case):
+    if case.get("tz") is not None:
+        import os
+        import time
+        if os.environ.get("TZ") != case["tz"]:
+            os.environ["TZ"] = case["tz"]
+            time.tzset()
     if case["kind"] == "us":
         check_us(case["us"])
     else:
@@ -179,6 +185,8 @@ def run_shard(ctx):
     n = 3000 if ctx.tier == "quick" else 40000
 
     def fn(case):
+        if tz is not None:
+            case["tz"] = tz
         if case["kind"] == "us":
             nt = case["us"] % 10**6 != 0
         else:
